@@ -117,7 +117,6 @@ func (s *Service) Start(ctx context.Context) error {
 	}
 
 	s.doStart.Do(func() {
-		defer s.isRunning.Store(true)
 		defer s.isStarted.Store(true)
 		ec := &s.ec
 		ehSignal := make(chan struct{})
